@@ -12,7 +12,7 @@
     Partial: the lexical level is proved form by form under C09 and compared by
     correspondence otherwise.  Statements only. *)
 From JP Require Import Base Value Lexer Parser Gen.Tables Spec.TableSpec Spec.Grammar Spec.Prec Spec.Disamb
-     Proofs.GrammarProof Proofs.ParseFuelProof Proofs.CompleteProof Proofs.DisSoundProof Proofs.TableIso Proofs.AgreeProof.
+     Proofs.GrammarProof Proofs.ParseFuelProof Proofs.CompleteProof Proofs.DisSoundProof Proofs.TableIso Proofs.AgreeProof Proofs.LexSoundProof.
 
 Theorem C03_table_order : table_order_ok gen_lbp gen_projection_stop = true.
 Proof. vm_compute. reflexivity. Qed.
@@ -160,6 +160,15 @@ Theorem C03_conditions_depend_on_the_order_only : forall T1 S1 T2 S2 c dp fol,
   prec (fun t => T2 (kind_of t)) 0 c /\ dis (fun t => T2 (kind_of t)) S2 dp fol c.
 Proof. exact prec_dis_table_independent. Qed.
 Print Assumptions C03_conditions_depend_on_the_order_only.
+
+(** The lexical level, soundness: the token list of any expression that lexes is a
+    segmentation of the expression into lexemes that spell their tokens (numbers
+    within the signed 32-bit range, [-] followed by 1-9, JSON literals holding valid
+    JSON, ...) and white space — no character is skipped or invented. *)
+Theorem C03_tokens_segment_the_expression : forall s tl, tokenize s = Ok tl ->
+  exists body, tl = rev body ++ [(byte_len s, TEof)] /\ covers body s.
+Proof. exact tokenize_segments. Qed.
+Print Assumptions C03_tokens_segment_the_expression.
 
 (** Non-vacuity: [a.b[0] || !c] and [*.[a, b] | f(&x, `1`)] as trees that meet every
     hypothesis of the completeness theorems (both tables); and a tree of the
